@@ -14,6 +14,31 @@ class InjectedFault(Exception):
     """Raised by a simulated container/callback on schedule."""
 
 
+class InjectedZeroDivisionError(InjectedFault, ZeroDivisionError):
+    pass
+
+
+class InjectedKeyError(InjectedFault, KeyError):
+    pass
+
+
+class InjectedValueError(InjectedFault, ValueError):
+    pass
+
+
+class InjectedTypeError(InjectedFault, TypeError):
+    pass
+
+
+class InjectedOSError(InjectedFault, OSError):
+    pass
+
+
+# what a user's container or callback may raise: the type must not matter to how the failure is reported
+FAULT_TYPES = {"plain": InjectedFault, "zerodiv": InjectedZeroDivisionError, "key": InjectedKeyError,
+               "value": InjectedValueError, "type": InjectedTypeError, "os": InjectedOSError}
+
+
 class SimStall(Exception):
     """CPU budget of one API call exceeded (DESIGN 3.3)."""
 
@@ -46,7 +71,7 @@ def _event(kind, sid, key):
     if f is not None and f["kind"] == kind and not f["fired"]:
         if f["n"] == 0:
             f["fired"] = True
-            exc = InjectedFault("%s#%s" % (kind, f.get("tag", "")))
+            exc = FAULT_TYPES.get(f.get("exc", "plain"), InjectedFault)("%s#%s" % (kind, f.get("tag", "")))
             _Ctx.fired = exc
             tr.append(("X" + kind, sid, key))
             raise exc
